@@ -160,6 +160,8 @@ def _data(ctx, kind, sh, dim, tag, symbolic_kv=True, nsym_w=2, off=0):
         total *= n
     P = shapes.net(ctx, tag + 'P', total, dim)
     W = _weights(ctx, tag + 'w', total, nsym_w) if sh['rational'] else None
+    if sh['rational'] and sh.get('weights') == 'equal':
+        W = [ctx.lit(Fraction(5, 2))] * total          # all weights equal, not 1: the common factor cancels in every point
     return dict(kind=kind, rational=sh['rational'], deg=list(sh['deg']), kvs=kvs, sizes=sizes, P=P, W=W, dim=dim,
                 delta=None)
 
@@ -367,6 +369,11 @@ def _json_instances(tier):
                 dict(kind='surface', members=[S_B], via=via, wrap=False, dim=3, trims='container'),
                 dict(kind='surface', members=[S_B, S_A], via='json' if via == 'json' else 'str', wrap=True, dim=3,
                      trims='freeform+container+spline')]
+    # rational shapes whose weights are all equal but not 1 (the weights themselves have to come back)
+    out += [dict(kind='curve', members=[dict(deg=[2], mult=[[1]], rational=True, weights='equal')], via='json', wrap=False, dim=3, trims=''),
+            dict(kind='surface', members=[dict(deg=[1, 2], mult=[[], []], rational=True, weights='equal')], via='dict', wrap=False, dim=3, trims=''),
+            dict(kind='surface', members=[S_A, dict(deg=[1, 2], mult=[[], []], rational=True, weights='equal')], via='json', wrap=True, dim=3, trims=''),
+            dict(kind='volume', members=[dict(deg=[1, 1, 1], mult=[[], [], []], rational=True, weights='equal')], via='str', wrap=True, dim=3, trims='')]
     if tier == 'thorough':
         for via in ('dict', 'str', 'json'):
             out += [dict(kind='curve', members=[dict(deg=[4], mult=[[1, 2]], rational=True)], via=via, wrap=False, dim=3, trims=''),
